@@ -407,6 +407,29 @@ def h_defaults(ctx, cfg):
     for name, (v, want) in minimal.items():
         got = J.value_to_json(v)
         ctx.prove("defaults_omitted_required_kept[%s]" % name, z3.BoolVal(json.dumps(got, sort_keys=True) == json.dumps(want, sort_keys=True) and _same_types(got, want)), detail="%r -> %r" % (v, got))
+    # whatever field of CodeData is left out because it holds its default, a *nested* code constant is still recognised as code and reads back equal
+    # (the decoder tells nested code from tagged constants by the keys it finds)
+    base = dict(blocks=(body,), filename="<unknown>", first_line_number=0, name="<module>", stacksize=0)
+    with_defaults = [("none", {})]
+    for f in dataclasses.fields(CodeData):
+        if f.default is not dataclasses.MISSING:
+            with_defaults.append((f.name, {f.name: f.default}))
+        elif f.default_factory is not dataclasses.MISSING:
+            with_defaults.append((f.name, {f.name: f.default_factory()}))
+    all_defaults = {}
+    for _, kw in with_defaults:
+        all_defaults.update(kw)
+    with_defaults.append(("every optional field", all_defaults))
+    for label, kw in with_defaults:
+        inner = CodeData(**dict(base, **kw))
+        outer = CodeData(blocks=((Instruction("LOAD_CONST", Constant(inner)), Instruction("LOAD_CONST", Constant(inner, 2))),), filename="o.py", first_line_number=1, name="o", stacksize=1,
+                         _additional_args=(Constant(inner, 3),))
+        try:
+            back = J.code_data_from_json(json.loads(json.dumps(J.value_to_json(outer), allow_nan=False)))
+            ok, det = back == outer, None if back == outer else repr(back)[:300]
+        except Exception as e:
+            ok, det = False, "%s: %s" % (type(e).__name__, e)
+        ctx.prove("nested_code_with_a_field_at_its_default_reads_back[%s]" % label, z3.BoolVal(ok), detail=det)
     # falsy but non-default values must NOT be dropped
     falsy = {"Jump.relative": (Jump(0, True), "relative"), "Name._index_override=0": (Name("n", 0), "_index_override"), "Instruction.line_number=0": (Instruction("X", NoArg(), None, 0), "line_number"),
              "Instruction.arg=0": (Instruction("X", 0), "arg"), "NoArg._arg": (NoArg(5), "_arg"), "Function.docstring=''": (Function(Args(), ""), "docstring"),
